@@ -84,6 +84,7 @@ type tqBatchReq struct {
 	Call string   `json:"call"`
 	Raw  string   `json:"raw,omitempty"`
 	Hdr  map[string]string `json:"hdr,omitempty"`
+	DateNB int64 `json:"date_nb,omitempty"` // a 429 answered with an HTTP-date: the instant that date names (ms since start)
 }
 type tqObs struct {
 	AddsReturned int             `json:"adds_returned"`
@@ -236,6 +237,8 @@ func (w *tqWorld) batchHandler(rw http.ResponseWriter, r *http.Request) {
 				for _, o := range oids {
 					w.obs.NotBefore[o] = t.Sub(w.start).Milliseconds() - 50
 				}
+				// per request too: a later 429 for the same object overwrites the per-object entry
+				w.obs.Batches[len(w.obs.Batches)-1].DateNB = t.Sub(w.start).Milliseconds() - 50
 			case "garbage": // not a delay at all: the ordinary back-off applies
 				rw.Header().Set("Retry-After", "soon")
 			default:
